@@ -1,6 +1,9 @@
 import PqlModel.Props.C03
 import PqlModel.Props.C02Split
 import PqlModel.Props.C05SplitRefines
+import PqlModel.Props.C03Semantics
+import PqlModel.Props.C03Chain
+import PqlModel.Props.C03ChainTake
 #print axioms Pql.C03.C03_bare_key_rewrite
 #print axioms Pql.C03.C03_quoted_key_not_rewritten
 #print axioms Pql.C03.C03_two_conditions_anded
@@ -8,3 +11,24 @@ import PqlModel.Props.C05SplitRefines
 #print axioms Pql.C03.C03_kinds
 #print axioms Pql.C05.C05_block_structure
 #print axioms Pql.C02.C02_limit_never_crosses_nested
+#print axioms Pql.C03.C03_interp_join
+#print axioms Pql.C03.C03_interp_join_kinds
+#print axioms Pql.C03.C03_join_link
+#print axioms Pql.C03.C03_inner_all_pairs
+#print axioms Pql.C03.C03_innerunique_dedups_left
+#print axioms Pql.C03.C03_innerunique_eq_inner_of_nodup
+#print axioms Pql.C03.C03_leftouter_keeps_unmatched
+#print axioms Pql.C03.C03_bare_key_semantics
+#print axioms Pql.C03.C03_bare_key_coalesce
+#print axioms Pql.C03.C03_bare_key_int
+#print axioms Pql.C03.C03_bare_key_null
+#print axioms Pql.C03.C03_conditions_anded
+#print axioms Pql.C03.C03_chain
+#print axioms Pql.C03.C03_chain_meaning
+#print axioms Pql.C03.Ex.C03_chain_needs_hU
+#print axioms Pql.C03.Ex.C03_chain_needs_hT
+#print axioms Pql.C03.Ex.C03_chain_needs_hnames
+#print axioms Pql.C03.Ex.C03_sort_on_join_link_sees_aliases
+#print axioms Pql.C03.C03_join_link_take
+#print axioms Pql.C03.C03_chain_take
+#print axioms Pql.C03.C03_chain_take_meaning
